@@ -131,6 +131,9 @@ def create_archive(
                 str(output_archive_path.absolute()),
                 "-C",  # Files to put in the archive are relative to `ctx.output_path`
                 str(ctx.output_path),
+                # N.B. Task and package names may start with `-`; everything
+                # after `--` is a member name, never an option.
+                "--",
                 str(archive_index_path.relative_to(ctx.output_path)),
                 *output_dirs_str,
             ],
